@@ -23,10 +23,13 @@ MANIFEST = dict(
          'regenerated from src/nunavut on every run and proved admissible by vm_compute: every memoisation site is keyed by the identity '
          'of self and by-value arguments (and no caller modifies a memoised value), every store on a long-lived object that is '
          'reachable from rendering is reset per file / overwritten per generate_all / a memo of a pure function, every unique-name '
-         'filter runs at render time, every object bound at module/class scope (literal containers and results of calls, i.e. '
+         'filter runs at render time (no exception), every read beyond a type\'s closure (Namespace API, generator namespace, globals, '
+         'language context) in render-phase code and in templates a type file can be made of is accounted for, the bundled engine\'s '
+         'process-wide lexer cache is keyed by everything the Lexer reads, every object bound at module/class scope (literal containers and results of calls, i.e. '
          'instances) is never written nor handed to code that could keep it (or is reviewed), every keyword argument of the bundled '
          'jinja2 Environment constructor is an allow-listed per-environment value. C10_file_indep: PREMISES class forest, admissible site table (the '
-         'model looks memo keys up through it), admissible store table (the model\'s per-file step consults it), and the named '
+         'model looks memo keys up through it), admissible store table and read table (the model\'s per-file step consults both: '
+         'scratch state / the run\'s input set become visible to rendering otherwise), and the named '
          'premise render_pure (which program a template is does not depend on process state); conclusion: same effective '
          'configuration + template listing + constructed processors + type => same template and same bytes in any two histories. '
          'C10_file_indep_real instantiates it with the regenerated tables and C16\'s regenerated pydsdl class forest, leaving only '
@@ -452,6 +455,9 @@ class Hist:
     def clear(self):
         self.steps.append({'op': 'clear_caches'})
 
+    def foreign_env(self, **settings):
+        self.steps.append({'op': 'foreign_env', 'settings': settings})
+
     def job(self) -> dict:
         roots = {'v1': self.sp.materialise()}
         if getattr(self.sp, 'v2', None) is not None:
@@ -707,6 +713,11 @@ def gen_builtin_histories(rng, lang: str, sp: Space, tier: str) -> typing.List[H
         g4 = h.new(3)
         h.run(g4, chunks=True)
         h.run(g1)
+    # the namespace WITHOUT two siblings nothing depends on (one from a nested namespace that keeps other types, one from the root):
+    # no type file may change (namespace files -- py __init__, html namespace pages -- legitimately do; they are not compared)
+    used = {d for ds in sp.deps.values() for d in ds}
+    gone = [t for t in ('nsx.Solo.1.0', 'nsx.doc.AUrl.1.0', 'nsx.doc.DHyphU.1.0') if t not in used][:2]     # (a random extra type may refer to one)
+    h.run(h.new(1, [t for t in sp.order if t not in gone]), perm=rng.randrange(1, 1000))
     # the REDEFINED namespace (same names/versions/sizes: changed dependency, field order, constant) generated by a new
     # generator of the same interpreter, then the original one again
     gv = h.new(1, variant='v2')
@@ -742,6 +753,17 @@ def gen_builtin_histories(rng, lang: str, sp: Space, tier: str) -> typing.List[H
         ao.run(ao.new(c), chunks=True, **kw)
     h.cfgs.update({k: v for k, v in ao.cfgs.items() if k not in h.cfgs})
     out.append(ao)
+    # the bundled engine's process-wide Lexer cache: environments that differ from the generator's in exactly ONE lexer-relevant
+    # setting are used first (by "somebody else" in the interpreter: plain bundled Environments), then the generator
+    fe = Hist('builtin-%s-foreignenv' % lang, sp, 'builtin')
+    fe.hashseed = rng.randrange(0, 1000)
+    fe.cfgs = ao.cfgs
+    fe.foreign_env(keep_trailing_newline=False)
+    fe.foreign_env(newline_sequence='\r\n')
+    fe.run(fe.new(1), chunks=True)
+    fe.foreign_env(keep_trailing_newline=False, trim_blocks=True, lstrip_blocks=True)
+    fe.run(fe.new(5), perm='rev', chunks=True)
+    out.append(fe)
     f5 = Hist('builtin-%s-fresh-cfg5' % lang, sp, 'builtin')
     f5.hashseed = rng.randrange(0, 1000)
     f5.cfgs = ao.cfgs
@@ -810,6 +832,8 @@ def line_up(h: Hist, out: typing.List[dict]) -> typing.Tuple[typing.List[dict], 
                 entries.append({'gid': gid, 'cfg': g['cfg'], 'ecfg': g['cfg'] * 16 + st.get('a', 0), 'args': st.get('a', 0), 'key': k, 'mkey': g['prefix'] + k, 'text': mask_time(r['files'][k]), 'pps': g['pps'],
                                 'chunks': (r.get('chunks') or {}).get(k), 'tmpl': (r.get('tmpl') or {}).get(k),
                                 'cls': (r.get('cls') or {}).get(k), 'tset': g['tset']})
+        elif st['op'] == 'foreign_env':
+            pass                      # not an operation of the generator process model: must simply not matter
         else:
             ops.append(('clear',))
     return entries, ops, errs
